@@ -39,7 +39,7 @@ VARIABLES
   cver,      \* number of committed write transactions
   lastw,     \* lastw[d] : cver at which d was last committed
   tx,        \* per explicit transaction: [st, start, snap, ws, evq]
-  published, \* sequence of notifications handed to the event bus: <<[d, k]>>
+  published, \* sequence of notifications handed to the event bus: <<[d, k, v]>> (v: the document's state at that commit)
   subs,      \* set of currently subscribed bus subscribers (every one of them receives every notification
              \* published while it is subscribed, whatever other subscribers came and went)
   nops,      \* number of API calls so far (bound)
@@ -50,7 +50,8 @@ vars == <<db, cver, lastw, tx, published, subs, nops, chist, hist>>
 view == <<db, cver, lastw, tx, published, subs, nops, chist>>
 
 \* notifications of one document-level commit
-Ev(d, k) == IF Branchable THEN <<[d |-> d, k |-> k], [d |-> "_collection", k |-> "collection"]>> ELSE <<[d |-> d, k |-> k]>>
+Ev(d, k, v) == IF Branchable THEN <<[d |-> d, k |-> k, v |-> v], [d |-> "_collection", k |-> "collection", v |-> 0]>>
+              ELSE <<[d |-> d, k |-> k, v |-> v]>>
 
 TxInit == [st |-> "idle", start |-> 0, snap |-> [d \in Docs |-> Absent],
            ws |-> [d \in Docs |-> NoWrite], evq |-> <<>>]
@@ -79,20 +80,20 @@ Begin(t) ==
 
 TCreate(t, d, r) ==
   /\ tx[t].st = "open" /\ r = CreateRes(View(t)[d])
-  /\ tx' = IF r = "ok" THEN [tx EXCEPT ![t].ws[d] = 0, ![t].evq = @ \o Ev(d, "create")] ELSE tx
+  /\ tx' = IF r = "ok" THEN [tx EXCEPT ![t].ws[d] = 0, ![t].evq = @ \o Ev(d, "create", 0)] ELSE tx
   /\ UNCHANGED <<db, cver, lastw, published, subs, chist>> /\ Count /\ Log([op |-> "create", t |-> t, d |-> d])
 TUpdate(t, d, v, r) ==
   /\ tx[t].st = "open" /\ r = UpdateRes(View(t)[d])
-  /\ tx' = IF r = "ok" THEN [tx EXCEPT ![t].ws[d] = v, ![t].evq = @ \o Ev(d, "update")] ELSE tx
+  /\ tx' = IF r = "ok" THEN [tx EXCEPT ![t].ws[d] = v, ![t].evq = @ \o Ev(d, "update", v)] ELSE tx
   /\ UNCHANGED <<db, cver, lastw, published, subs, chist>> /\ Count /\ Log([op |-> "update", t |-> t, d |-> d, v |-> v])
 \* an update that changes no field still adds a document-level commit (and its notification)
 TTouch(t, d, r) ==
   /\ tx[t].st = "open" /\ r = UpdateRes(View(t)[d])
-  /\ tx' = IF r = "ok" THEN [tx EXCEPT ![t].ws[d] = View(t)[d], ![t].evq = @ \o Ev(d, "update")] ELSE tx
+  /\ tx' = IF r = "ok" THEN [tx EXCEPT ![t].ws[d] = View(t)[d], ![t].evq = @ \o Ev(d, "update", View(t)[d])] ELSE tx
   /\ UNCHANGED <<db, cver, lastw, published, subs, chist>> /\ Count /\ Log([op |-> "touch", t |-> t, d |-> d])
 TDelete(t, d, r) ==
   /\ tx[t].st = "open" /\ r = DeleteRes(View(t)[d])
-  /\ tx' = IF r = "ok" THEN [tx EXCEPT ![t].ws[d] = Deleted, ![t].evq = @ \o Ev(d, "delete")] ELSE tx
+  /\ tx' = IF r = "ok" THEN [tx EXCEPT ![t].ws[d] = Deleted, ![t].evq = @ \o Ev(d, "delete", Deleted)] ELSE tx
   /\ UNCHANGED <<db, cver, lastw, published, subs, chist>> /\ Count /\ Log([op |-> "delete", t |-> t, d |-> d])
 \* a query inside the transaction returns the live documents of  snapshot (+) own writes
 TQuery(t, rows) ==
@@ -141,7 +142,7 @@ IApply(d, new, k, r, fault) ==
   IF r = "ok" /\ ~fault
   THEN /\ db' = [db EXCEPT ![d] = new] /\ cver' = cver + 1 /\ lastw' = [lastw EXCEPT ![d] = cver + 1]
        /\ chist' = Append(chist, [start |-> cver, at |-> cver + 1, docs |-> {d}])
-       /\ published' = published \o Ev(d, k)
+       /\ published' = published \o Ev(d, k, new)
   ELSE UNCHANGED <<db, cver, lastw, published, subs, chist>>
 ICreate(d, r, fault) == /\ (fault /\ r = "fault") \/ (~fault /\ r = CreateRes(db[d]))
                         /\ IApply(d, 0, "create", r, fault)
@@ -169,6 +170,15 @@ Subscribe(s) == /\ s \notin subs /\ subs' = subs \cup {s}
 Unsubscribe(s) == /\ s \in subs /\ subs' = subs \ {s}
                   /\ UNCHANGED <<db, cver, lastw, tx, published, chist>> /\ Count /\ Log([op |-> "unsub", t |-> 0, s |-> s])
 SubIds == {"s1", "s2", "s3", "s4"}
+
+\* A GraphQL subscription  subscription { T(filter: {v: {_ge: f}}) { name v } }  open since the start: one result per
+\* notification of a document-level commit at which the document is live and matches, showing the state AT that
+\* commit (internal/db/subscriptions.go evaluates the selection at the notification's cid), in notification order;
+\* nothing for a commit that does not match, for a delete, or for a collection-level commit.
+GqlMatches(e, f) == e.d # "_collection" /\ Live(e.v) /\ e.v >= f
+RECURSIVE GqlResults(_, _)
+GqlResults(evs, f) == IF evs = <<>> THEN <<>>
+                      ELSE (IF GqlMatches(Head(evs), f) THEN <<<<Head(evs).d, Head(evs).v>>>> ELSE <<>>) \o GqlResults(Tail(evs), f)
 
 -----------------------------------------------------------------------------
 Res == {"ok", "err"}
